@@ -1322,7 +1322,8 @@ class DesignSpace:
         if minus_lb:
             out[..., norm_inds] += lower_bounds[norm_inds]
 
-        if not self.__no_integer:
+        if not self.__no_integer and minus_lb:
+            # Only points are rounded, not scaled vectors such as gradients.
             self.round_vect(out, copy=False)
             if recast_to_int:
                 out = out.astype(self.__INT_DTYPE)
